@@ -15,7 +15,7 @@ typedef struct {
     uint8_t *buf; size_t n;
     int stack[1700]; int sp;
     vbuf trace; bool tracing;
-    uint64_t steps, capped;
+    uint64_t steps, capped, histories;
     /* c09 */
     bool watch; bool tripped; int err_class; int after_calls; const char *trip_call;
 } sctx;
@@ -32,6 +32,20 @@ static bool traverse(sctx *c, int root_kind, int strategy, vrng *r, bool *inconc
     bool ok = root_kind == K_OBJ ? binson_parser_init_object(p, c->buf, c->n) : binson_parser_init_array(p, c->buf, c->n);
     tr(c, "init", ok);
     if (!ok) return false;
+    if (vrn(r, 4) == 0) {
+        /* the same parser object was used before: a walk abandoned somewhere, then reset (which succeeds whenever init did) */
+        bool b = root_kind == K_OBJ ? binson_parser_go_into_object(p) : binson_parser_go_into_array(p);
+        for (uint32_t i = 0; b && i < 1 + vrn(r, 10); i++) {
+            if (!binson_parser_next(p)) break;
+            binson_type ty = binson_parser_get_type(p);
+            if (ty == BINSON_TYPE_OBJECT && vrn(r, 3)) binson_parser_go_into_object(p);
+            else if (ty == BINSON_TYPE_ARRAY && vrn(r, 3)) binson_parser_go_into_array(p);
+        }
+        bool rs = binson_parser_reset(p);
+        tr(c, "[abandoned walk] reset", rs);
+        if (!rs) return false;
+        c->histories++;
+    }
     ok = root_kind == K_OBJ ? binson_parser_go_into_object(p) : binson_parser_go_into_array(p);
     tr(c, "go_into(root)", ok);
     if (!ok) return false;
@@ -206,6 +220,7 @@ static void case_c08(vrng *r)
         }
     }
     vw_count("traversal_calls", c.steps);
+    vw_count("traversals_after_abandoned_walk_and_reset", c.histories);
     if (d.n >= 3) vw_nontrivial(vh_hash(d.p, d.n, (uint64_t)(root * 1000 + depth)));
     if (vw_want_sample() && d.n > 6 && d.n < 60) {
         vbuf s; memset(&s, 0, sizeof s);
